@@ -148,6 +148,8 @@ def run(ctx):
     from . import c12 as main      # site_of, sign_class, PROPERTY_OBLIGATIONS (lazily: c12 imports this module)
 
     def site_of(op):
+        if op.startswith("cvt:"):
+            return "Interval::assign"
         return ADJ_SITE if op.startswith("adj") else BOX_SITE if op.startswith("box:") else main.site_of(op)
 
     replay_cmd = "bin/check C12 --replay <this file>   # = %s --one '<ty> <op> <I> <J>' | %s %s" % (
@@ -181,6 +183,8 @@ def run(ctx):
             what = "%s on Interval<%s, Native_Integer_Box_Interval_Info>: %s %s %s = %s violates '%s': %s" % (
                 site, CTYPE.get(ev[1], ev[1]), ev[3], op, ev[4], ev[5], ob, detail)
             robj = {"event": " ".join(ev), "type": ev[1], "op": op, "I": ev[3], "J": ev[4]}
+            if op.startswith("cvt:"):      # conversion from another interval type: the recorded journal line is re-judged
+                robj = {"event": " ".join(ev), "conversion": op, "source_interval": ev[3]}
             if op.startswith("box:"):      # no --one for box chains: the recorded journal line is re-judged (replay_generic)
                 robj = {"event": " ".join(ev), "box_type": "Int8_Box", "affine_image": op, "argument_box": ev[3]}
             ctx.violation(what, dict(robj, **{
